@@ -146,4 +146,18 @@ def delete (idLen : Nat) (row : Option Meta) : Option Meta × Out :=
     | none => (row, .notfound)
     | some _ => (none, .ok)
 
+/-- WriteBatch.DeleteChannelRuntimeMeta (compat; what the slot FSM's delete command calls): the key is
+    deleted unconditionally — no not-found result -/
+def wdelete (idLen : Nat) (row : Option Meta) : Option Meta × Out :=
+  if idLen = 0 ∨ idLen > 65535 then (row, .invalid) else (none, .ok)
+
+/-- WriteBatch.AdvanceChannelRetentionThroughSeq (compat / slot FSM): as the Shard method, but the
+    channel id is not validated (an empty id simply finds no row) -/
+def wadvance (row : Option Meta) (req : Advance) : Option Meta × Out := advance 1 row req
+
+/-- what the slot FSM's upsert / create commands hand to the batch: the command encoder canonicalises
+    (normalizes) the candidate, the wire format has no DirectoryGeneration field, and the decoder
+    canonicalises again -/
+def fsmCand (c : Meta) : Meta := normalize { normalize c with dirGen := 0 }
+
 end WK.C15
